@@ -2824,7 +2824,8 @@ class LinearOperator(object):
         elif isinstance(other, DiagLinearOperator):
             return AddedDiagLinearOperator(self, other)
         elif isinstance(other, RootLinearOperator):
-            return self.add_low_rank(other.root)
+            # a factor B with B B^T = other (for an upper-orientation CholLinearOperator this is root^T, not root)
+            return self.add_low_rank(other.root_decomposition().root)
         elif isinstance(other, Tensor):
             other = to_linear_operator(other)
             shape = torch.broadcast_shapes(self.shape, other.shape)
